@@ -115,3 +115,11 @@ func VerifScanTable(s *SecretScanner, dbName string, table *TableDump) []SecretF
 
 // VerifLoadCatalog exposes (*RemoteClient).loadCatalog.
 func VerifLoadCatalog(c *RemoteClient, dbOID uint32) { c.loadCatalog(dbOID) }
+
+// C07: array element type tables.
+var (
+	VerifArrayElemTypes = arrayElemTypes
+	VerifFixedLengths   = fixedLengths
+	VerifElemAligns     = elemAligns
+	VerifArrayElemAlign = arrayElemAlign
+)
